@@ -95,7 +95,7 @@ Proof.
       apply Body. set_solver.
     + destruct (1000 * full <? alloc_shared t s p); [|discriminate].
       destruct (subseteqb X (free_shar s p) && (csize X =? full)) eqn:HX; [|discriminate].
-      destruct (desc_safeb t s p X && desc_users_okb t s p X); [|discriminate].
+      destruct (spare_okb t s p X); [|discriminate].
       apply andb_true_iff in HX as [HX _]. apply subseteqb_true in HX.
       apply Body. set_solver.
   - destruct (bool_decide (X = ∅)) eqn:HX; [|discriminate].
